@@ -415,6 +415,68 @@ void add_oct_space(mc::Runner &R, const std::string &name, const char *kind, int
   R.add(sp);
 }
 
+// The domain of the octahedral part is "the unique representative of a
+// direction that the encoder emits": every integer vector with abs sum c, sent
+// through IntegerVectorToQuantizedOctahedralCoords (the last step of both the
+// normal attribute transform and the geometric-normal predictor), must land on
+// a canonical point that un-maps (harness's own integer un-mapping) to the same
+// vector. One x per index.
+void add_emit_space(mc::Runner &R, const std::string &name, int q) {
+  const int32_t mx = (1 << q) - 2, c = mx / 2;
+  mc::Space sp;
+  sp.name = name;
+  sp.size = 2 * c + 1;
+  sp.cases_per_index = 2 * uint64_t(c) + 1;  // average over x (4c^2+2 vectors in total)
+  sp.run = [=](uint64_t idx, mc::Ctx &ctx) {
+    OctahedronToolBox tb;
+    if (!tb.SetQuantizationBits(q)) {
+      ctx.fail("toolbox-rejects-quantization-bits", "q=" + std::to_string(q));
+      return;
+    }
+    const int32_t x = int32_t(idx) - c, r = c - std::abs(x);
+    uint64_t n = 0, border = 0;
+    int fails = 0;
+    for (int32_t y = -r; y <= r; ++y) {
+      const int32_t zr = r - std::abs(y);
+      for (int sg = 0; sg < (zr ? 2 : 1); ++sg) {
+        const int32_t iv[3] = {x, y, sg ? -zr : zr};
+        int32_t s = INT32_MIN, t = INT32_MIN;
+        tb.IntegerVectorToQuantizedOctahedralCoords(iv, &s, &t);
+        n++;
+        char b[160];
+        snprintf(b, sizeof b, "q=%d integer vector (%d,%d,%d) -> coords (%d,%d)", q, iv[0], iv[1], iv[2], s, t);
+        if (s < 0 || t < 0 || s > mx || t > mx) {
+          if (fails++ < 16) ctx.fail("emitted-coordinates-outside-[0,2^q-2]", b);
+          continue;
+        }
+        if (s == 0 || t == 0 || s == mx || t == mx) border++;
+        if (!canonical(q, s, t)) {
+          if (fails++ < 16) ctx.fail("emitted-coordinates-not-canonical|" + pt_class(q, {s, t}), b);
+          continue;
+        }
+        const int32_t u = s - c, v = t - c;
+        int32_t bx = c - std::abs(u) - std::abs(v), by = u, bz = v;
+        if (bx < 0) {
+          by = (u >= 0 ? 1 : -1) * (c - std::abs(v));
+          bz = (v >= 0 ? 1 : -1) * (c - std::abs(u));
+        }
+        if (bx != iv[0] || by != iv[1] || bz != iv[2]) {
+          if (fails++ < 16) ctx.fail("emitted-coordinates-denote-another-direction|" + pt_class(q, {s, t}), b);
+        }
+      }
+    }
+    ctx.count("emit:integer_vectors", n);
+    ctx.count("emit:on_square_border", border);
+    ctx.count("roundtrips", n);
+  };
+  sp.describe = [=](uint64_t idx) {
+    return "q=" + std::to_string(q) + ": every integer vector (" + std::to_string(int32_t(idx) - c) +
+           ", y, z) with |x|+|y|+|z| = " + std::to_string(c) + " through IntegerVectorToQuantizedOctahedralCoords";
+  };
+  sp.klass = [=](uint64_t) { return "emit|q=" + std::to_string(q); };
+  R.add(sp);
+}
+
 typedef PredictionSchemeNormalOctahedronCanonicalizedEncodingTransform<int32_t> CanonEnc;
 typedef PredictionSchemeNormalOctahedronCanonicalizedDecodingTransform<int32_t> CanonDec;
 typedef PredictionSchemeNormalOctahedronEncodingTransform<int32_t> PlainEnc;
@@ -439,9 +501,11 @@ int main(int argc, char **argv) {
       "{INT32_MIN,INT32_MIN+1,-2^30,-1,0,1} x (max-min) in {0,1,2,2^30-1,2^30+1,2^31-3,2^31-2}, orig from {min..min+2, "
       "mid-1..mid+1, max-2..max}, pred from those + {min-3..min-1,max+1..max+3} + the 7 extreme values; 1..3 components. "
       "Octahedral: every ordered pair of canonical coordinates, canonicalized transform q<=7 (quick) / q<=9 (thorough), "
-      "legacy transform q<=6; q=9,10 (thorough also 11,12): every pair of canonical points within 2 cells of the "
+      "legacy transform q<=6; q=9,10 (thorough also 11): every pair of canonical points within 2 cells of the "
       "square border, the axes or the diamond; q=9..30: every pair of points where those bands meet (coordinates within 2 of "
-      "0,c/2,c,3c/2,max and a 16-line lattice, and the diamond-edge points above/below them). states = distinct "
+      "0,c/2,c,3c/2,max and a 16-line lattice, and the diamond-edge points above/below them). "
+      "Domain check: every integer vector with |x|+|y|+|z| = centre, q<=9, through "
+      "IntegerVectorToQuantizedOctahedralCoords must give a canonical point denoting that vector. states = distinct "
       "(input class, code path) outcomes; non-trivial = wrap case in which the prediction was clamped or the correction "
       "wrapped / octahedral pair with pred != orig; all inputs are distinct by construction";
   R.explanation =
@@ -467,6 +531,8 @@ int main(int argc, char **argv) {
     for (int q = 9; q <= 30; ++q)
       add_oct_space<CanonEnc, CanonDec>(R, "asan_canon_bandpts_q" + q2(q), "oct-canon", q, band_sampled(q),
                                          q == 9 || q == 16 || q == 30, true);
+    for (int q = 2; q <= 9; ++q) add_emit_space(R, "asan_emit_canonical_q" + q2(q), q);
+    R.require("emit:on_square_border", 1);
     R.require("wrap:pred_clamped_to_max", 1);
     R.require("wrap:pred_clamped_to_min", 1);
     R.require("wrap:correction_wrapped_up", 1);
@@ -480,7 +546,7 @@ int main(int argc, char **argv) {
       add_oct_space<CanonEnc, CanonDec>(R, "canon_q" + q2(q), "oct-canon", q, pts, q <= 7, true);
       if (q <= 6) add_oct_space<PlainEnc, PlainDec>(R, "plain_q" + q2(q), "oct-plain", q, pts, true, true);
     }
-    for (int q = 9; q <= 12; ++q)
+    for (int q = 9; q <= 11; ++q)
       add_oct_space<CanonEnc, CanonDec>(R, "canon_band_q" + q2(q), "oct-canon", q, band_literal(q, 2), q <= 10, true);
     for (int q = 9; q <= 30; ++q) {
       add_oct_space<CanonEnc, CanonDec>(R, "canon_bandpts_q" + q2(q), "oct-canon", q, band_sampled(q), true, true);
